@@ -59,6 +59,11 @@ class World:
         # repeated compilations of one history use the same configuration (a memo of compiled
         # functions would be hit)
         self.compact = rng.choice((0, 0, 1, 2))
+        # the function may be requested from the stepping engine object, another object of the same symbol
+        # type, or an engine of the other symbol type (e.g. `sym_metanet.engine.to_function` after a switch)
+        r_ = rng.random()
+        self.compile_eng_kind = "same object" if r_ < 0.6 else ("other object, same type" if r_ < 0.8 else "other symbol type")
+        self.compile_eng = self.eng if r_ < 0.6 else (CE(st) if r_ < 0.8 else CE("MX" if st == "SX" else "SX"))
 
     # ----- live helpers
     def elements(self):
@@ -187,13 +192,15 @@ def observe_compile(W_, rec, ctxhist):
     rec.count("compilations_observed")
     rec.seen("expectations", (exp, why))
     try:
-        F = W_.eng.to_function(W_.net, compact=compact, **KW)
+        F = W_.compile_eng.to_function(W_.net, compact=compact, **KW)
         got, err = "function", None
     except RuntimeError as e:
         got, err = "error", e
     except Exception as e:
         got, err = "other-exception", e
-    ctx = {"history": list(ctxhist), "sym_type": W_.st, "compact": compact, "expected": exp, "why": why}
+    ctx = {"history": list(ctxhist), "sym_type": W_.st, "compact": compact, "expected": exp, "why": why,
+           "function_requested_from": W_.compile_eng_kind}
+    rec.seen("compile_engine_kinds", (W_.compile_eng_kind, exp))
     if exp == "error":
         if got == "function":
             rec.violation(f"{PROP}:compile returned a function although: {why}", ctx)
@@ -208,6 +215,18 @@ def observe_compile(W_, rec, ctxhist):
     rec.count("functions_as_expected")
     if F.get_free():
         rec.violation(f"{PROP}:compiled function has free symbols", dict(ctx, free=str(F.get_free())))
+        return
+    # at every level the function takes exactly the network's current variables and returns its successors
+    n_in_exp = sum((x.numel() if hasattr(x, "numel") else np.size(x))
+                   for el in W_.elements() for grp in (el.states, el.actions, el.disturbances) if grp for x in grp.values())
+    n_out_exp = sum((x.numel() if hasattr(x, "numel") else np.size(x))
+                    for el in W_.elements() if el._states and el.next_states for x in el.next_states.values())
+    n_in = sum(F.numel_in(i) for i in range(F.n_in()))
+    n_out = sum(F.numel_out(i) for i in range(F.n_out()))
+    rec.count("function_sizes_checked")
+    if (n_in, n_out) != (n_in_exp, n_out_exp):
+        rec.violation(f"{PROP}:the returned function does not take the network's current variables / return its successors (sizes)",
+                      dict(ctx, inputs=n_in, expected_inputs=n_in_exp, outputs=n_out, expected_outputs=n_out_exp))
         return
     if compact != 0:
         return
